@@ -8,5 +8,6 @@ for id in $ids; do
   out=$(TRY_FLAGS="$flags" tools/try_patch.sh /verif/seeded/$id/patch.diff $prop 2>&1)
   v=$(echo "$out" | grep -c '^VIOLATION'); u=$(echo "$out" | grep -c '^UNDECIDED'); o=$(echo "$out" | grep -c '^OK')
   first=$(echo "$out" | grep -m1 '^  obligation' | cut -c1-110)
-  echo "$id prop=$prop violations=$v undecided=$u ok=$o $first"
+  ps=$(echo "$out" | grep -c 'only proof steps')
+  echo "$id prop=$prop violations=$v undecided=$u ok=$o proofstep_downgrades=$ps $first"
 done
